@@ -101,6 +101,16 @@ func concStep(g, k int) step {
 	return st
 }
 
+// settlers: per client, a function that waits (briefly) until the client's reader goroutine is blocked in Read -
+// what a caller that takes its time between two calls gives the client the time to do
+var settlers sync.Map
+
+func settle(cl *imapclient.Client) {
+	if f, ok := settlers.Load(cl); ok {
+		f.(func())()
+	}
+}
+
 var seq12 = func() imap.SeqSet { var s imap.SeqSet; s.AddRange(1, 2); return s }()
 
 var scripts = map[string][]step{
@@ -233,6 +243,29 @@ var scripts = map[string][]step{
 		}, []seg{{1, fixed("* 1 FETCH (UID 1 BODY[] " + lit("a body that is read only partly") + " FLAGS (\\Seen))\r\n* 2 FETCH (UID 2 BODY[] " + lit("never looked at") + ")\r\n")},
 			{1, tagged(0, "OK fetched")}}, []int{1}},
 		{1, func(cl *imapclient.Client) []error {
+			// a caller that takes its time: every body is read to its end, and the next call is made
+			// only once the client has gone back to waiting for the server
+			cmd := cl.Fetch(seq12, &imap.FetchOptions{UID: true, Flags: true, BodySection: []*imap.FetchItemBodySection{{}}})
+			for {
+				msg := cmd.Next()
+				if msg == nil {
+					break
+				}
+				for {
+					it := msg.Next()
+					if it == nil {
+						break
+					}
+					if b, ok := it.(imapclient.FetchItemDataBodySection); ok && b.Literal != nil {
+						io.ReadAll(b.Literal)
+						settle(cl)
+					}
+				}
+			}
+			return one(cmd.Close())
+		}, []seg{{1, fixed("* 1 FETCH (UID 1 BODY[] " + lit("read to the end, slowly") + " FLAGS (\\Seen))\r\n* 2 FETCH (BODY[] " + lit("second body") + " UID 2 FLAGS ())\r\n")},
+			{1, tagged(0, "OK fetched")}}, []int{1}},
+		{1, func(cl *imapclient.Client) []error {
 			cmd := cl.List("", "%", nil)
 			cmd.Next()
 			return one(cmd.Close())
@@ -315,6 +348,7 @@ type caseT struct {
 	Script string `json:"script"`
 	Cut    int    `json:"cut"`
 	Fault  string `json:"fault"`
+	Mid    bool   `json:"mid"` // the cut lies inside a response
 }
 
 type runResult struct {
@@ -325,6 +359,35 @@ type runResult struct {
 	hung   bool
 	total  int
 	hungAt string
+	stream string // dry run: everything the server sent after the greeting
+	self   bool   // every call had returned before the caller closed the client
+}
+
+// respBounds returns the offsets of the reply stream that lie between two responses (0, and the offset after
+// the CRLF of every response; a "{n}" right before a CRLF announces n octets that belong to the same response).
+func respBounds(stream string) map[int]bool {
+	b := map[int]bool{0: true}
+	i := 0
+	for i < len(stream) {
+		j := strings.Index(stream[i:], "\r\n")
+		if j < 0 {
+			break
+		}
+		end := i + j + 2
+		line := stream[i : i+j]
+		if strings.HasSuffix(line, "}") {
+			if k := strings.LastIndex(line, "{"); k >= 0 {
+				n := 0
+				if _, err := fmt.Sscanf(line[k:], "{%d}", &n); err == nil {
+					i = end + n
+					continue
+				}
+			}
+		}
+		b[end] = true
+		i = end
+	}
+	return b
 }
 
 func statusOf(err error) string {
@@ -342,6 +405,10 @@ func runCase(cs caseT) *runResult {
 	var mu sync.Mutex
 	sent := 0
 	faulted := false
+	stalled := make(chan struct{})
+	if cs.Fault != "stall" {
+		close(stalled)
+	}
 	inject := func() {
 		faulted = true
 		switch cs.Fault {
@@ -353,7 +420,25 @@ func runCase(cs caseT) *runResult {
 			cc.FailWrites(errors.New("write: broken pipe"))
 			cc.Stall()
 		case "stall":
-			cc.Stall()
+			// virtual time: the stall outlasts every timeout of the client.  The clock is advanced once
+			// the client has come to rest (its reader blocked in Read, nobody touching the deadline any
+			// more): the real timeouts are tens of seconds, everything the goroutines of the client and of
+			// the caller do on their own happens long before one of them expires.
+			go func() {
+				stable, last := 0, int64(-1)
+				for i := 0; i < 300 && stable < 4; i++ {
+					time.Sleep(100 * time.Microsecond)
+					g := cc.ReadDeadlineGen()
+					if sc.PeerBlockedInRead() && g == last {
+						stable++
+					} else {
+						stable = 0
+					}
+					last = g
+				}
+				cc.Stall()
+				close(stalled)
+			}()
 		}
 	}
 	// emit sends reply bytes, enforcing the cut; it returns false once the fault has been injected
@@ -374,6 +459,9 @@ func runCase(cs caseT) *runResult {
 		}
 		sc.Write([]byte(data))
 		sent += len(data)
+		if cs.Cut < 0 {
+			res.stream += data
+		}
 		if cs.Cut >= 0 && sent == cs.Cut {
 			inject()
 			return false
@@ -383,6 +471,12 @@ func runCase(cs caseT) *runResult {
 	greeting := "* OK [CAPABILITY IMAP4rev1] ready\r\n"
 	sc.Write([]byte(greeting))
 	cl := imapclient.New(cc, nil)
+	settlers.Store(cl, func() {
+		for i := 0; i < 20 && !sc.PeerBlockedInRead(); i++ {
+			time.Sleep(100 * time.Microsecond)
+		}
+	})
+	defer settlers.Delete(cl)
 	if err := cl.WaitGreeting(); err != nil {
 		res.hungAt = "greeting: " + err.Error()
 		res.hung = true
@@ -466,8 +560,19 @@ func runCase(cs caseT) *runResult {
 	select {
 	case <-done:
 		finished = true
-	case <-time.After(40 * time.Millisecond):
+	case <-stalled:
+		// the virtual clock has been advanced: what returns by the client's own timeout returns now
+		wait := 40 * time.Millisecond
+		if cs.Fault == "stall" && cs.Mid {
+			wait = 2 * time.Second // (a loaded machine must not look like a timeout that never fires)
+		}
+		select {
+		case <-done:
+			finished = true
+		case <-time.After(wait):
+		}
 	}
+	res.self = finished
 	if !finished && cs.Cut >= 0 {
 		// the connection is stalled where the client has no deadline of its own (or the calls simply
 		// take longer): the caller gives up and closes the client
@@ -502,12 +607,14 @@ func main() {
 	layouts := map[string][]int{}
 	totals := map[string]int{}
 	skipped := map[string]bool{}
+	bounds := map[string]map[int]bool{}
 	for name := range scripts {
 		dry := runCase(caseT{Script: name, Cut: -1, Fault: "none"})
+		bounds[name] = respBounds(dry.stream)
 		if dry.hung && dry.hungAt == "" {
 			// the transcript without any fault is a transcript too: calls or Close that do not return are
 			// what the property forbids (the script is left out of the fault enumeration)
-			out.Mismatch("hang/"+name+"/nofault", fmt.Sprintf("script %s without any fault: calls or Close did not return within 4 s (closed=%v issued=%d returned=%d)", name, dry.closed, dry.issued, len(dry.rets)), caseT{name, -1, "none"})
+			out.Mismatch("hang/"+name+"/nofault", fmt.Sprintf("script %s without any fault: calls or Close did not return within 4 s (closed=%v issued=%d returned=%d)", name, dry.closed, dry.issued, len(dry.rets)), caseT{name, -1, "none", false})
 			skipped[name] = true
 			continue
 		}
@@ -531,6 +638,7 @@ func main() {
 		}
 		var cs caseT
 		json.Unmarshal(b, &cs)
+		cs.Mid = !bounds[cs.Script][cs.Cut]
 		cases = []caseT{cs}
 		outPath = os.Args[3]
 	} else {
@@ -545,7 +653,7 @@ func main() {
 					if *stride > 1 && k%*stride != rng.Intn(*stride) && !isBoundary(layouts[name], k) {
 						continue
 					}
-					cases = append(cases, caseT{name, k, f})
+					cases = append(cases, caseT{name, k, f, !bounds[name][k]})
 				}
 			}
 		}
@@ -570,11 +678,11 @@ func main() {
 			for cs := range jobs {
 				r := runCase(cs)
 				emu.Lock()
-				enc.Encode(map[string]interface{}{"ev": "Run", "script": cs.Script, "end": layouts[cs.Script], "cut": cs.Cut, "fault": cs.Fault})
+				enc.Encode(map[string]interface{}{"ev": "Run", "script": cs.Script, "end": layouts[cs.Script], "cut": cs.Cut, "fault": cs.Fault, "mid": cs.Mid})
 				for _, ret := range r.rets {
 					enc.Encode(ret)
 				}
-				enc.Encode(map[string]interface{}{"ev": "End", "issued": r.issued, "closed": r.closed, "hung": r.hung})
+				enc.Encode(map[string]interface{}{"ev": "End", "issued": r.issued, "closed": r.closed, "hung": r.hung, "self": r.self})
 				emu.Unlock()
 				smu.Lock()
 				records += 2 + len(r.rets)
@@ -585,6 +693,9 @@ func main() {
 					samples = append(samples, map[string]interface{}{"case": cs, "returns": r.rets})
 				}
 				smu.Unlock()
+				if cs.Fault == "stall" && cs.Mid && !r.self && !r.hung {
+					out.Mismatch(fmt.Sprintf("no-timeout/%s", cs.Script), fmt.Sprintf("the connection stalled inside a response (%d octets of the reply stream received) and the client's own read timeout never fired: its calls returned only when the caller closed the client (%+v issued=%d)", cs.Cut, cs, r.issued), cs)
+				}
 				if r.hung {
 					out.Mismatch(fmt.Sprintf("hang/%s/%s", cs.Script, cs.Fault), fmt.Sprintf("calls or Close did not return within 4 s: %+v (closed=%v issued=%d returned=%d)", cs, r.closed, r.issued, len(r.rets)), cs)
 				}
